@@ -169,6 +169,12 @@ class MechAdapter(Adapter):
             c2.fix_parameters({fixed[0]: 123.0})
             c2.fix_parameters({fixed[-1]: None})
         out['sim_after_copy_changed'] = obj.simulate(v, TIMES)
+        if self.sbml:
+            # a periodic regimen set THROUGH the object (wrapper or plain model) after the history: every argument reaches
+            # the model under its own name; afterwards the regimen of the other evaluations is put back
+            obj.set_dosing_regimen(2.0, start=0.1, duration=0.2, period=0.7, num=3)
+            out['sim_regimen_set_through_the_object'] = obj.simulate(v, TIMES)
+            obj.set_dosing_regimen(1.5, start=0.25, duration=0.5, period=1)
         return out
 
 
